@@ -34,8 +34,8 @@ pub fn case_hash(cx: &Cx, v: &Val) -> u64 { hash64(&[cx.type_id.as_bytes(), form
 /// Scaling factors that push the borrowed payload of a value past a page, an 8 KiB
 /// BufReader/BufWriter buffer and 64 KiB.
 /// Scalings of the large-value passes: payloads past a page / 8 KiB / 64 KiB, payloads of an exact
-/// multiple of 2^16 items, and (REPEAT mode) sequences of more than 2^16 items whatever the items.
-pub const LARGE_SCALES: [usize; 4] = [3_000, 30_000, 65_536, crate::dom::REPEAT | 65_537];
+/// multiple of 2^8, 2^12 and 2^16 items, and (REPEAT mode) sequences of more than 2^16 items whatever the items.
+pub const LARGE_SCALES: [usize; 7] = [256, 3_000, 4_096, 30_000, 65_536, crate::dom::REPEAT | 257, crate::dom::REPEAT | 65_537];
 
 /// Predicted stream length of value `i` under scaling `k` (lengths are affine in `k`).
 pub fn scaled_len(t: &dyn TypeOps, i: usize, k: usize) -> usize {
